@@ -948,7 +948,12 @@ def gen_resp(rng: random.Random, sid: str, focus: str, thorough: bool = False) -
                 steps.append(fin)
             elif r2 < 0.5:
                 fin = gen_query(rng, pool, focus)
-                fin.pop('auth', None)
+                if rng.random() < 0.5:
+                    fin.pop('auth', None)
+                elif 'auth' not in fin and rng.random() < 0.5:
+                    # the query that completes the held train is a probe: the whole train is answered as one (at once)
+                    spp = rng.choice(pool)
+                    fin['auth'] = [{'rec': rec_of(spp, 'ptr'), 'ttl': spp['other_ttl']}]
                 fin['known'] = fresh_known(fin.get('known', []))
                 fin['src'] = src
                 fin['port'] = q.get('port', 5353)
